@@ -59,6 +59,17 @@ def run_l2(prop, tier, seed, log):
     r = subprocess.run([FBTHREADS, "check", "--prop", prop, "--iters", str(iters), "--seed", str(seed), "--workers", "16",
                         "--out", out, "--replays", REPLAYS], stdout=subprocess.PIPE, stderr=subprocess.DEVNULL, text=True)
     print(r.stdout, end="", flush=True)
+    if r.returncode < 0:
+        # killed by a signal: in this layer a use-after-free or double free of the code under test is
+        # real and takes the process down (the schedule of the crashing execution is lost with it)
+        path = os.path.join(REPLAYS, "%s-l2-crash.txt" % prop)
+        os.makedirs(REPLAYS, exist_ok=True)
+        with open(path, "w") as f:
+            f.write("# layer=L2\n# fbthreads was killed by signal %d while exploring interleavings\n# replay: %s check --prop %s --iters %d --seed %d --workers 16\n"
+                    % (-r.returncode, FBTHREADS, prop, iters, seed))
+        log("VIOLATION property=%s replay=%s" % (prop, path))
+        log("  L2: the interleaving explorer was killed by signal %d (memory corruption by the code under test)" % (-r.returncode))
+        return 1, {"layer": "L2 fbthreads", "crashed_with_signal": -r.returncode, "violations_counted": 1}
     if r.returncode not in (0, 1):
         log("HARNESS-ERROR: fbthreads exited with %d" % r.returncode)
         raise SystemExit(2)
@@ -95,9 +106,10 @@ def miri_verdict(text):
 
 def run_l3(prop, tier, seed, log):
     mode = THREADED[prop]
-    nseeds = 16 if tier == "quick" else 96
-    workloads = [seed % 1000 + 1] if tier == "quick" else [seed % 1000 + 1 + k for k in range(4)]
-    execs = 10 if tier == "quick" else 16
+    nseeds = 8 if tier == "quick" else 32
+    # many distinct scenarios, each under several Miri schedules
+    workloads = [seed % 1000 + 1 + k for k in range(4 if tier == "quick" else 12)]
+    execs = 14 if tier == "quick" else 16
     t0 = time.time()
     ran = 0
     stats = {"polls": 0, "pendings": 0, "parks": 0, "wakes": 0, "wakes_during_poll": 0, "stale": 0, "after_drop": 0, "early_drops": 0, "executions": 0}
